@@ -4302,6 +4302,14 @@ fn parse_qualifiers<'a>(
         } else {
             Ok((newarg, remainder, qualifier, AnnotationDepth::One))
         }
+    } else if arg == "RECURSIVE" {
+        let (newarg, remainder, _) = get_arg(querystring)?;
+        Ok((
+            newarg,
+            remainder,
+            SelectionQualifier::Normal,
+            AnnotationDepth::Max,
+        ))
     } else {
         Ok((
             arg,
